@@ -10,7 +10,7 @@ THEOREMS = {
     "C04": ("TrVerif.Props.NonVacuity", ["Tr.C04_optimal", "Tr.singleReverse_optimal", "Tr.revStep1_RCθ", "Tr.revScanList1_RCθ", "Tr.bestAccess_ge", "Tr.init_RCθ",
                                          "Tr.revIndex_spec", "Tr.C01", "Tr.C02_times", "Tr.C02_arrival", "Tr.nv_hypotheses", "Tr.nv_hypotheses_reverse", "Tr.nv_admissible", "Tr.nv_results"]),
     "C06": ("TrVerif.Props.C06", ["Tr.C06_totals", "Tr.C06_route"]),
-    "C07": ("TrVerif.Props.C07Data", ["Tr.C07_route_strings", "Tr.C07_accessibility_strings", "Tr.C07_enum_order", "Tr.C07_access",
+    "C07": ("TrVerif.Props.C07All", ["Tr.C07_route_no_service_to_destination", "Tr.revScan_count_zero", "Tr.revIndex_spec", "Tr.C07_route_strings", "Tr.C07_accessibility_strings", "Tr.C07_enum_order", "Tr.C07_access",
                                       "Tr.C07_route_no_service_from_origin", "Tr.C07_no_service_from_origin_data", "Tr.C07_no_service_from_origin",
                                       "Tr.C07_no_service_at_place_forward", "Tr.fwdScan_count_zero", "Tr.fwdIndex_spec", "Tr.before_start_early"]),
     # module NonVacuity imports C08Complete and C09Complete (hence C02, C07Data, C08, C09, C18): a concrete dataset meeting every hypothesis, on which all four calculations succeed
@@ -87,8 +87,10 @@ _reg("C07", "PROOF (partial): Tr.C07_access - the NO_ACCESS_* trichotomy is retu
      "when NO connection of an admitted trip can be caught from an access stop within the limits (CaughtF: leaves no earlier than request + shortest access walk, trip not excluded, within "
      "max_travel_time, boarding stop reached by the access walk no later than departure - minimum waiting, first-waiting cap); Tr.C07_no_service_at_place_forward: the same for departure-time "
      "accessibility; proved via 'the forward pass counts nothing iff no scanned connection is caught' and the transparency of the hour index (Tr.fwdIndex_spec: everything before the start "
-     "position leaves before the requested hour). Both reason-to-string switches and the enum order are regenerated from the source. NOT proved: the NO_SERVICE_TO_DESTINATION side (reverse "
-     "scan count) and that NO_ROUTING_FOUND is returned only when neither applies AND no journey exists (needs completeness); these are evaluated per answer by the oracle reason_spec. " + _M + ".",
+     "position leaves before the requested hour). Both reason-to-string switches and the enum order are regenerated from the source. Tr.C07_route_no_service_to_destination: "
+     "the mirror image for arrival-time queries (no connection of an admitted trip arrives at an offered stop early enough to walk to the destination by the requested time, within "
+     "max_travel_time: CaughtR). NOT proved: the second pass of a departure-time query (it can also answer NO_SERVICE_TO_DESTINATION), arrival-time accessibility, and that NO_ROUTING_FOUND is "
+     "returned only when no journey exists for departure-time queries (for arrival-time queries that is Tr.C04_optimal); these are evaluated per answer by the oracle reason_spec. " + _M + ".",
      "Lean 4 theorems (access trichotomy; NO_SERVICE_FROM_ORIGIN iff by the data incl. hour-index transparency) + regenerated tables + differential correspondence + executable oracle")
 _reg("C08", "PROOF (full, over the model, on the property's own domain): Tr.C08_sound - every listed stop is reachable with the reported time (inductive specification Reach: access walk, or a ride "
      "of one admitted trip with permitted boarding after the minimum waiting time and permitted alighting followed by one footpath within the transfer maximum); Tr.C08_complete - every stop "
